@@ -70,7 +70,7 @@ type clRunner struct {
 	decoyWG   sync.WaitGroup
 }
 
-func newCLRunner(max int64, lateWrap bool) (*clRunner, error) {
+func newCLRunner(max int64, lateWrap bool, stock bool) (*clRunner, error) {
 	r := &clRunner{seen: map[int64]int64{}, entered: make(chan int64, 1)}
 	r.handler = func() http.Handler {
 		return http.HandlerFunc(func(w http.ResponseWriter, req *http.Request) {
@@ -110,6 +110,15 @@ func newCLRunner(max int64, lateWrap bool) (*clRunner, error) {
 		amount, _ := strconv.ParseInt(req.Header.Get("X-Amount"), 10, 64)
 		return s, amount, nil
 	})
+	if stock {
+		// the library's own header extractor, configured with the header name in lower case (amount 1, no error path)
+		x, err := utils.NewExtractor("request.header.x-source")
+		if err != nil {
+			return nil, err
+		}
+		extract = utils.ExtractorFunc(x.Extract)
+		hlib.Count("limiters_with_the_stock_header_extractor", 1)
+	}
 	var first http.Handler
 	if !lateWrap {
 		first = r.handler()
@@ -372,7 +381,13 @@ func (c *connlimitComp) Run(h *hlib.History) ([]hlib.Mon, bool) {
 	max := h.Cfg[0]
 	lateWrap := len(h.Cfg) == 2
 	wrapped := !lateWrap
-	r, err := newCLRunner(max, lateWrap)
+	stock := max%2 == 1
+	for _, op := range h.Ops {
+		if (len(op) == 1 && op[0] == 2) || (len(op) >= 3 && (op[0] == 0 || op[0] == 1) && op[2] != 1) {
+			stock = false // a request without a source, or an amount other than 1: only the harness's extractor can say that
+		}
+	}
+	r, err := newCLRunner(max, lateWrap, stock)
 	if err != nil {
 		return nil, false
 	}
@@ -566,7 +581,13 @@ func (c *connlimitComp) Run(h *hlib.History) ([]hlib.Mon, bool) {
 
 // solo replays only the ops of one source on a fresh limiter.
 func (c *connlimitComp) solo(h *hlib.History, tok int64) ([]int64, bool) {
-	r, err := newCLRunner(h.Cfg[0], len(h.Cfg) == 2)
+	stock := h.Cfg[0]%2 == 1
+	for _, op := range h.Ops {
+		if (len(op) == 1 && op[0] == 2) || (len(op) >= 3 && (op[0] == 0 || op[0] == 1) && op[2] != 1) {
+			stock = false
+		}
+	}
+	r, err := newCLRunner(h.Cfg[0], len(h.Cfg) == 2, stock)
 	if err != nil {
 		return nil, false
 	}
